@@ -63,6 +63,7 @@ type Goroutine struct {
 	yieldN  int
 	waitRead    bool
 	unwindDepth int
+	commitPending bool
 }
 
 type AssertStat struct {
@@ -148,6 +149,12 @@ type Machine struct {
 	guardViol     int
 	lastSnapDiff  string
 	panicMsg      string
+	kvConflicts    int
+	rescued        int
+	pendingCommits []pendingCommit
+	crashFn        *FuncVal
+	crashed        bool
+	bufBlobs       map[*Obj]*Blob
 	sigs          []sigRec
 	verifyCalls   int
 	verifyOK      int
@@ -223,6 +230,14 @@ func (m *Machine) feasible(c *Term) string {
 	r := m.solver.checkSat()
 	m.solver.send("(pop 1)")
 	if strings.HasPrefix(r, "unknown") {
+		// second opinion before giving up (never turns unknown into success silently:
+		// the answer of the other solver is used as is)
+		if m.solver2 != nil {
+			if r2 := m.crossCheck(c); r2 == "sat" || r2 == "unsat" {
+				m.rescued++
+				return r2
+			}
+		}
 		m.unknowns++
 		return "unknown"
 	}
